@@ -95,6 +95,8 @@ const (
 	KSlice
 	KMap
 	KIface
+	KSliceOf // type Name []Elem   (Elem a named struct type, possibly of another package)
+	KMapOf   // type Name map[string]Elem
 )
 
 type Field struct {
@@ -117,17 +119,19 @@ type TypeDecl struct {
 	Kind   TypeKind
 	Fields []*Field
 	// annotations
-	Immutable    bool
-	Constructors []string // names; nil = no @constructor
-	CtorSpelling string   // rendered argument text of the @constructor line
-	TestOnly     bool
-	PackageOnly  [][]string // one entry per @packageonly line; nil = none
-	Implements   []string   // raw argument text per @implements line
-	ImplRefs     []ImplRef  // structured @implements lines (qualifier resolved per file at render time)
-	ExtraDoc     []string   // other doc lines (noise), rendered first
-	Grouped      bool       // rendered as type ( ... ) group
-	IfaceMethods []string   // for KIface: method signatures
-	AliasOf      *TypeRef   // if non-nil this is an alias declaration: type Name = X
+	Immutable     bool
+	Constructors  []string // names; nil = no @constructor
+	CtorSpelling  string   // rendered argument text of the @constructor line
+	TestOnly      bool
+	PackageOnly   [][]string // one entry per @packageonly line; nil = none
+	Implements    []string   // raw argument text per @implements line
+	ImplRefs      []ImplRef  // structured @implements lines (qualifier resolved per file at render time)
+	ExtraDoc      []string   // other doc lines (noise), rendered first
+	Grouped       bool       // rendered as type ( ... ) group
+	IfaceMethods  []string   // for KIface: method signatures
+	AliasOf       *TypeRef   // if non-nil this is an alias declaration: type Name = X
+	Elem          *TypeRef   // element type of KSliceOf / KMapOf
+	methodsClosed bool       // all methods of this type have been generated
 }
 
 func (t *TypeDecl) declNode() *Node { return &t.Node }
@@ -405,7 +409,12 @@ func paramSite(v *Var, kind string) *Site {
 	return s
 }
 
-func (t *TypeDecl) declSite() *Site { return &Site{ID: t.ID, Kind: "typedecl", Type: t} }
+func (t *TypeDecl) declSite() *Site {
+	if t.Elem != nil {
+		return &Site{ID: t.ID, Kind: "typedecl.container", Type: t.Elem.Type, Ref: t.Elem}
+	}
+	return &Site{ID: t.ID, Kind: "typedecl", Type: t}
+}
 
 func (fl *Field) site(owner *TypeDecl) *Site {
 	s := &Site{ID: fl.ID, Kind: "field", Type: fl.Type, Ref: fl.Ref, Field: fl}
